@@ -1120,7 +1120,7 @@ def tier_c(run, thorough):
     # ---- cosine-type under scaling, correlation-type under affine maps -------------------------------------------
     bd = Bounded(run, 'C17/scale-affine-invariance', 'C17/compare/oracle/cosine-scaling-correlation-affine',
                  'cosine, cosine_cov (sigma_k none / vector / matrix) under x -> a*x; corr, corr_cov (same sigma_k) under x -> a*x+b; '
-                 'a in {1e-3, 0.5, 1, 7, 1e3}, b in {0, -2, 30}; arrays and transform(fun); 4-6 conditions, 1-3 RDMs per stack, '
+                 'a in {1e-3, 0.5, 1, 7, 1e3} (+ extreme units 1e-26 .. 1e12 with b = 0), b in {0, -2, 30}; arrays and transform(fun); 4-6 conditions, 1-3 RDMs per stack, '
                  'with / without ties, 0 or 2 common missing entries (not with matrix sigma_k); %d seed(s)' % (3 if thorough else 1),
                  function='compare')
     scales = (1e-3, 0.5, 1.0, 7.0, 1e3)
@@ -1141,6 +1141,14 @@ def tier_c(run, thorough):
                                           sigma=sigma, a1=a1, b1=b1, a2=a2, b2=b2, via='lib' if i % 2 else 'array', ties=bool(i % 5 == 0),
                                           n_nan=n_nan),
                                      f'{method},sigma_k={sigma}' + (',with-missing' if n_nan else ''), function='compare')
+    # extreme physical units (e.g. squared field strengths in Tesla^2 ~ 1e-26): no absolute threshold may turn a small RDM into a zero RDM
+    for j, (method, sigma) in enumerate((('cosine', 'none'), ('corr', 'none'), ('cosine_cov', 'none'), ('corr_cov', 'none'),
+                                         ('cosine_cov', 'vector'), ('corr_cov', 'matrix'))):
+        for a1, a2 in ((1e-18, 1.0), (1e-26, 1e-26), (1.0, 1e-20), (1e12, 1e-15)):
+            bd.check(orc_scale_affine,
+                     dict(seed=900 + j, n_cond=5, n_rdm=[2, 2], method=method, sigma=sigma, a1=a1, b1=0.0, a2=a2, b2=0.0,
+                          via='array' if j % 2 else 'lib', ties=False, n_nan=0),
+                     f'{method},sigma_k={sigma},extreme-scale', function='compare')
     bd.done()
     bds.append(bd)
 
